@@ -25,6 +25,9 @@ pub trait Env: Sync {
     fn after_unlock(&self, _lock: usize, _exclusive: bool, _panicking: bool) {}
     /// A lazily initialised static is being dereferenced.
     fn lazy_force(&self, _lazy: usize, _initialised: bool) {}
+    /// A named point inside the provider code where a simulator may switch
+    /// threads (no effect otherwise).
+    fn point(&self, _name: &'static str) {}
     /// Open a zoneinfo file.
     fn open(&self, path: &Path) -> io::Result<Box<dyn Read>> {
         Ok(Box::new(std::fs::File::open(path)?))
@@ -61,6 +64,12 @@ pub(crate) fn env() -> &'static dyn Env {
         // SAFETY: only ever set by `install` to a leaked, never freed box.
         unsafe { *p }
     }
+}
+
+/// Marks a scheduling point (see [`Env::point`]).
+#[inline]
+pub fn point(name: &'static str) {
+    env().point(name)
 }
 
 /// Drop-in replacements for the `std::sync` items the crate uses. Everything
